@@ -466,6 +466,11 @@ def rule_det(ctx):
 
 
 def run(ctx):
+    from ..report import SubCtx
+    from . import c09
+    sub = SubCtx(ctx, 'C10.queue', 'rt clocks and the nrt scheduler share one queue class: its priority-queue contract, as decided for C09')
+    c09.rule_inv(sub)
+    c09.rule_key(sub)
     rule_mode(ctx)
     rule_wake(ctx)
     rule_exact(ctx, 'C10.exact')
@@ -475,6 +480,9 @@ def run(ctx):
 
 
 MUTANTS = [
+    dict(rule='C10.queue', name='queue re-insertion updates the entry in place (seeds C08-e, C05-f)', file='sc3/base/_taskq.py',
+         old="        if task in self._entry_finder:\n            self.remove(task)\n        count = next(self._counter)\n        entry = [prio, count, task]\n        self._entry_finder[task] = entry\n        heapq.heappush(self._queue, entry)",
+         new="        count = next(self._counter)\n        if task in self._entry_finder:\n            entry = self._entry_finder[task]\n            entry[0] = prio\n            entry[1] = count\n            return\n        entry = [prio, count, task]\n        self._entry_finder[task] = entry\n        heapq.heappush(self._queue, entry)"),
     dict(rule='C10.mode', name='AppClock nrt branch does not accept a None delta (fix reverted)', file='sc3/base/clock.py',
          old="            if delta is None:  # As Scheduler.sched.\n                delta = 0.0\n", new=""),
     dict(rule='C10.wake', name='NRT logical time clamped to be monotonic (seed C10-c)', file='sc3/base/main.py',
